@@ -170,6 +170,9 @@ func TestC05_Cache(t *testing.T) {
 		var past [][2]int
 		hits, deltaRepeatHit, afterUpdate, updated := 0, false, false, false
 		bigHit := false
+		mutatedRepeat := false
+		var redo *[2]int
+		lastQ := ""
 		enabled := true
 		statsHits := func() int64 { return cdb.GetCacheStats()["search"].Hits }
 		acts := map[string]func(*rapid.T){
@@ -179,7 +182,12 @@ func TestC05_Cache(t *testing.T) {
 				if len(cmds) > 50 && rapid.IntRange(0, 2).Draw(t, "big-limit") == 0 {
 					oi = rapid.SampledFrom(bigIdx).Draw(t, "big-oi")
 				}
-				if len(past) > 0 {
+				sameSpelling := false
+				if redo != nil {
+					qi, oi = redo[0], redo[1] // the very same request again, its options changed in place meanwhile
+					redo = nil
+					sameSpelling = rapid.IntRange(0, 3).Draw(t, "same-spelling") > 0
+				} else if len(past) > 0 {
 					// repeats are what exercise the cache: re-issue an earlier request
 					// unchanged, or with only its option set changed
 					switch rapid.IntRange(0, 3).Draw(t, "repeat-mode") {
@@ -192,6 +200,10 @@ func TestC05_Cache(t *testing.T) {
 				}
 				past = append(past, [2]int{qi, oi})
 				q := respellASCII(t, queries[qi])
+				if sameSpelling && lastQ != "" {
+					q = lastQ
+				}
+				lastQ = q
 				o := opts[oi]
 				variant := rapid.SampledFrom([]string{"options", "options", "simple", "monitored", "monitored-simple"}).Draw(t, "variant")
 				if !useMon && strings.HasPrefix(variant, "monitored") {
@@ -235,6 +247,44 @@ func TestC05_Cache(t *testing.T) {
 				seen[key] = append(seen[key], hist{q, oi})
 				if updated {
 					afterUpdate = true
+				}
+			},
+			"mutate": func(t *rapid.T) {
+				// callers re-use one options value and change it in place between requests: the boost
+				// map and the platform list are the same objects before and after
+				var cand []int
+				for i, o := range opts {
+					if len(o.ContextBoosts) > 0 || len(o.Platforms) > 0 {
+						cand = append(cand, i)
+					}
+				}
+				i := rapid.SampledFrom(cand).Draw(t, "which-opt")
+				lastWord := ""
+				if len(past) > 0 {
+					if last := past[len(past)-1]; last[1] >= 0 && (len(opts[last[1]].ContextBoosts) > 0 || len(opts[last[1]].Platforms) > 0) {
+						i = last[1] // the options of the request just made
+					}
+					if f := strings.Fields(strings.ToLower(queries[past[len(past)-1][0]])); len(f) > 0 {
+						lastWord = f[0]
+					}
+				}
+				if m := opts[i].ContextBoosts; len(m) > 0 {
+					nw := rapid.SampledFrom([]float64{1.2, 2.5, 3, 7}).Draw(t, "new-weight")
+					for k, v := range m {
+						if !math.IsInf(v, 0) {
+							m[k] = nw
+						}
+					}
+					if lastWord != "" && rapid.Bool().Draw(t, "boost-last-word") {
+						m[lastWord] = nw // a new key in the same map: a word of the query just searched
+					}
+				} else {
+					opts[i].Platforms[0] = rapid.SampledFrom([]string{"windows", "macos", "linux"}).Draw(t, "new-platform")
+				}
+				steps = append(steps, fmt.Sprintf("mutate(opt#%d)", i))
+				if len(past) > 0 && past[len(past)-1][1] == i && rapid.IntRange(0, 3).Draw(t, "repeat-after-mutate") > 0 {
+					mutatedRepeat = true
+					redo = &[2]int{past[len(past)-1][0], i}
 				}
 			},
 			"invalidate": func(t *rapid.T) {
@@ -285,7 +335,7 @@ func TestC05_Cache(t *testing.T) {
 				}
 			},
 		}
-		rare := []string{"invalidate", "enable", "enable", "cleanup", "cleanup", "update"}
+		rare := []string{"invalidate", "enable", "enable", "cleanup", "cleanup", "update", "mutate", "mutate", "mutate"}
 		t.Repeat(map[string]func(*rapid.T){
 			"":        acts[""],
 			"search":  acts["search"],
@@ -309,6 +359,9 @@ func TestC05_Cache(t *testing.T) {
 		}
 		if bigHit {
 			labels = append(labels, "hit-over-50-results")
+		}
+		if mutatedRepeat {
+			labels = append(labels, "repeat-after-in-place-change")
 		}
 		if len(steps) > 40 {
 			steps = append(steps[:40], fmt.Sprintf("... %d more", len(steps)-40))
